@@ -121,7 +121,7 @@ package bastion
 //@   requires forall k string :: k in a.logs ==> a.logs[k].Origin == originFor(k)
 //@   modifies n_wo, wo_err, wo_h, n_gl, gl_err, gl_val, gl_h, n_set, set_err, set_arg, set_h, n_close, close_h, n_commit
 //@   modifies n_sign, sign_err, sign_out, sign_n, st_has, st_val, cnt, n_upd, upd_id, upd_old, upd_cp, upd_proof, upd_out, upd_err
-//@   modifies n_allow, allow_ok, n_pb, rd_buf, rd_err, n_wh, wh_code, n_write, body_out, n_hdr, hdr_key, hdr_val
+//@   modifies n_allow, allow_ok, n_pb, rd_buf, rd_err, n_wh, wh_code, n_write, body_out, n_hdr, hdr_key, hdr_val, n_bodies_open
 //@   // always exactly one status line, one of the documented codes
 //@   ensures[C10.one,C19.one] n_wh == 1 && (wh_code == 200 || wh_code == 400 || wh_code == 403 || wh_code == 404 || wh_code == 409 || wh_code == 422 || wh_code == 429 || wh_code == 500)
 //@   // over the rate: 429 without reading the body or touching the witness
